@@ -13,7 +13,7 @@ import (
 )
 
 func init() {
-	register("C20", "Structural clauses behind codec and framing soundness: for Stat and Packet the struct tags, the embedded descriptor (decoded from the rawDesc literal), both marshal variants, UnmarshalVT and the field mentions of SizeVT/CloneVT/EqualVT agree field by field on number and wire type; decoding never stores a sub-slice of its input (no-retain analysis of the input parameter, through nested messages) and UnmarshalVTUnsafe has no caller; every slice of the input and every allocation sized by a decoded length is dominated by fatal bounds tests; the stream adapter reads only with io.ReadFull, uses one byte-order object and a 4-byte prefix on both sides, returns before touching the pool on a zero length, returns the pooled buffer only by defer, writes prefix and body in one Write, and its panicking type assertions are satisfiable by the message type the module sends (finding F7, fixed). Does not decide round-trip equality for all values nor absence of panics on arbitrary bytes (index arithmetic).", runC20)
+	register("C20", "Structural clauses behind codec and framing soundness: for Stat and Packet the struct tags, the embedded descriptor (decoded from the rawDesc literal), both marshal variants, UnmarshalVT and the field mentions of SizeVT/CloneVT/EqualVT agree field by field on number and wire type; decoding never stores a sub-slice of its input (no-retain analysis of the input parameter, through nested messages) and UnmarshalVTUnsafe has no caller; every slice of the input and every allocation sized by a decoded length is dominated by fatal bounds tests; the stream adapter reads only with io.ReadFull, uses one byte-order object and a 4-byte prefix on both sides, returns before touching the pool on a zero length, returns the pooled buffer only by defer, writes prefix and body in one Write, and its panicking type assertions are satisfiable by the message type the module sends (finding F7, fixed). The body of a frame is read into a buffer cut to the frame's length. Does not decide round-trip equality for all values nor absence of panics on arbitrary bytes (index arithmetic).", runC20)
 }
 
 func runC20(c *Ctx) {
